@@ -12,12 +12,12 @@ import (
 
 func init() {
 	register(&Property{
-		ID:        "C16",
-		Title:     "Responses are well-formed MS-TSGU packets reporting true outcome and policy",
-		DesignRef: "DESIGN.md §3 C16",
-		Technique: "byte-layout abstraction of the straight-line response builders (static widths of binary.Write operands vs. an MS-TSGU layout table) + typestate model (type/status per path) + conditional constant propagation of makeRedirectFlags over all 2^7 switch settings + SSA value origin for idle timeout and policy wiring",
-		LevelText: "Static: each response builder writes exactly the fixed fields of its MS-TSGU structure (widths in order), the status parameter at the status offset, a constant fields-present mask, and exactly the optional fields that mask announces; it wraps them with createPacket of the builder's response type, whose header writes type, reserved and len(data)+8 with a header of static width 8. On every path of the packet loop the response's type answers the request and status is 0 exactly on the accepting path, with the three MS-TSGU refusal codes at their refusals. makeRedirectFlags is evaluated by constant propagation for all 128 settings against the specification function (disable-all precedence, per-device negation, bit values). Idle timeout is Gateway.IdleTimeout clamped at 0; main initialises each policy field from the configuration field of the same meaning.",
-		LevelNote: "Trusted: encoding/binary writes the static width of its operand in call order; bytes.Buffer; MS-TSGU field tables transcribed into the checker (independent of the repository's own client decoder). The close-channel response layout is the gateway's own (status + mask + reserved + channel id).",
+		ID:          "C16",
+		Title:       "Responses are well-formed MS-TSGU packets reporting true outcome and policy",
+		DesignRef:   "DESIGN.md §3 C16",
+		Technique:   "byte-layout abstraction of the straight-line response builders (static widths of binary.Write operands vs. an MS-TSGU layout table) + typestate model (type/status per path) + conditional constant propagation of makeRedirectFlags over all 2^7 switch settings + SSA value origin for idle timeout and policy wiring",
+		LevelText:   "Static: each response builder writes exactly the fixed fields of its MS-TSGU structure (widths in order), the status parameter at the status offset, a constant fields-present mask, and exactly the optional fields that mask announces; it wraps them with createPacket of the builder's response type, whose header writes type, reserved and len(data)+8 with a header of static width 8. On every path of the packet loop the response's type answers the request and status is 0 exactly on the accepting path, with the three MS-TSGU refusal codes at their refusals. makeRedirectFlags is evaluated by constant propagation for all 128 settings against the specification function (disable-all precedence, per-device negation, bit values). Idle timeout is Gateway.IdleTimeout clamped at 0; main initialises each policy field from the configuration field of the same meaning.",
+		LevelNote:   "Trusted: encoding/binary writes the static width of its operand in call order; bytes.Buffer; MS-TSGU field tables transcribed into the checker (independent of the repository's own client decoder). The close-channel response layout is the gateway's own (status + mask + reserved + channel id).",
 		Explanation: "C16/layout abstracts every builder to its sequence of (width, value-kind) writes and compares it with the table; C16/header does the same for createPacket. C16/type-and-status reads each path of the typestate model. C16/constants compares status codes, packet types, mask bits and redirect bits with MS-TSGU values. C16/redirect runs conditional constant propagation over makeRedirectFlags for every assignment of the seven switches. C16/idle and C16/policy-wiring follow values.",
 		Assumptions: []string{"MS-TSGU §2.2.5/2.2.10 values as transcribed in rules_c16.go"},
 		Rules: []RuleDef{
@@ -133,21 +133,43 @@ func c16Layout(c *Ctx) {
 		fn := bi.Fn
 		want := c.ConstInt("cmd/rdpgw/protocol", lay.respType)
 		c.Check(bi.PktType == want, rule, key+" type", fn.Pos(), fmt.Sprintf("wrapped as %s (%#x)", lay.respType, want), fmt.Sprintf("builder wraps its body as packet type %#x, expected %s (%#x)", bi.PktType, lay.respType, want))
-		writes, buf, ok, why := bufferWrites(fn)
+		// the body may be assembled by a shared helper: createPacket(T, helper(status, ...))
+		bodyFn := fn
+		statusParam := ssa.Value(fn.Params[bi.StatusIdx])
+		for _, r := range returnsOf(fn) {
+			if cp, ok := r.Results[0].(*ssa.Call); ok {
+				if hc, ok := strip(arg(cp, 1)).(*ssa.Call); ok {
+					if h := hc.Call.StaticCallee(); h != nil && IsFirstParty(h) && h.Blocks != nil && calleeName(hc) != "(*bytes.Buffer).Bytes" {
+						for j, a := range hc.Call.Args {
+							if a == statusParam && j < len(h.Params) {
+								bodyFn, statusParam = h, h.Params[j]
+							}
+						}
+					}
+				}
+			}
+		}
+		writes, buf, ok, why := bufferWrites(bodyFn)
 		if !ok {
 			c.Undecided(rule, key+" writes", fn.Pos(), "%s", why)
 			continue
 		}
 		// the packet body is this buffer's bytes
 		bodyOK := false
-		for _, r := range returnsOf(fn) {
-			if cp, ok := r.Results[0].(*ssa.Call); ok {
-				if by, ok := strip(arg(cp, 1)).(*ssa.Call); ok && calleeName(by) == "(*bytes.Buffer).Bytes" && recvOf(by) == buf {
-					bodyOK = true
-					for _, w := range writes {
-						if !dominatesInstr(w.call, by) {
-							bodyOK = false
-						}
+		for _, r := range returnsOf(bodyFn) {
+			var by *ssa.Call
+			if bodyFn == fn {
+				if cp, ok := r.Results[0].(*ssa.Call); ok {
+					by, _ = strip(arg(cp, 1)).(*ssa.Call)
+				}
+			} else {
+				by, _ = strip(r.Results[0]).(*ssa.Call)
+			}
+			if by != nil && calleeName(by) == "(*bytes.Buffer).Bytes" && recvOf(by) == buf {
+				bodyOK = true
+				for _, w := range writes {
+					if !dominatesInstr(w.call, by) {
+						bodyOK = false
 					}
 				}
 			}
@@ -171,7 +193,7 @@ func c16Layout(c *Ctx) {
 		sw := writes[lay.statusIdx]
 		stOK := false
 		for _, o := range origins(sw.val) {
-			if o.Kind == "param" && o.Value == ssa.Value(fn.Params[bi.StatusIdx]) {
+			if o.Kind == "param" && o.Value == statusParam {
 				stOK = true
 			}
 		}
@@ -331,36 +353,36 @@ func c16TypeStatus(c *Ctx) {
 }
 
 var mstsguConstants = map[string]uint32{
-	"ERROR_SUCCESS":                               0x0,
-	"E_PROXY_INTERNALERROR":                       0x800759D8,
-	"E_PROXY_RAP_ACCESSDENIED":                    0x800759DA,
-	"E_PROXY_CAPABILITYMISMATCH":                  0x800759E9,
-	"E_PROXY_COOKIE_AUTHENTICATION_ACCESS_DENIED": 0x800759F8,
-	"PKT_TYPE_HANDSHAKE_REQUEST":                  0x1,
-	"PKT_TYPE_HANDSHAKE_RESPONSE":                 0x2,
-	"PKT_TYPE_TUNNEL_CREATE":                      0x4,
-	"PKT_TYPE_TUNNEL_RESPONSE":                    0x5,
-	"PKT_TYPE_TUNNEL_AUTH":                        0x6,
-	"PKT_TYPE_TUNNEL_AUTH_RESPONSE":               0x7,
-	"PKT_TYPE_CHANNEL_CREATE":                     0x8,
-	"PKT_TYPE_CHANNEL_RESPONSE":                   0x9,
-	"PKT_TYPE_DATA":                               0xA,
-	"PKT_TYPE_KEEPALIVE":                          0xD,
-	"PKT_TYPE_CLOSE_CHANNEL":                      0x10,
-	"PKT_TYPE_CLOSE_CHANNEL_RESPONSE":             0x11,
-	"HTTP_TUNNEL_RESPONSE_FIELD_TUNNEL_ID":        0x1,
-	"HTTP_TUNNEL_RESPONSE_FIELD_CAPS":             0x2,
-	"HTTP_TUNNEL_AUTH_RESPONSE_FIELD_REDIR_FLAGS": 0x1,
+	"ERROR_SUCCESS":                                0x0,
+	"E_PROXY_INTERNALERROR":                        0x800759D8,
+	"E_PROXY_RAP_ACCESSDENIED":                     0x800759DA,
+	"E_PROXY_CAPABILITYMISMATCH":                   0x800759E9,
+	"E_PROXY_COOKIE_AUTHENTICATION_ACCESS_DENIED":  0x800759F8,
+	"PKT_TYPE_HANDSHAKE_REQUEST":                   0x1,
+	"PKT_TYPE_HANDSHAKE_RESPONSE":                  0x2,
+	"PKT_TYPE_TUNNEL_CREATE":                       0x4,
+	"PKT_TYPE_TUNNEL_RESPONSE":                     0x5,
+	"PKT_TYPE_TUNNEL_AUTH":                         0x6,
+	"PKT_TYPE_TUNNEL_AUTH_RESPONSE":                0x7,
+	"PKT_TYPE_CHANNEL_CREATE":                      0x8,
+	"PKT_TYPE_CHANNEL_RESPONSE":                    0x9,
+	"PKT_TYPE_DATA":                                0xA,
+	"PKT_TYPE_KEEPALIVE":                           0xD,
+	"PKT_TYPE_CLOSE_CHANNEL":                       0x10,
+	"PKT_TYPE_CLOSE_CHANNEL_RESPONSE":              0x11,
+	"HTTP_TUNNEL_RESPONSE_FIELD_TUNNEL_ID":         0x1,
+	"HTTP_TUNNEL_RESPONSE_FIELD_CAPS":              0x2,
+	"HTTP_TUNNEL_AUTH_RESPONSE_FIELD_REDIR_FLAGS":  0x1,
 	"HTTP_TUNNEL_AUTH_RESPONSE_FIELD_IDLE_TIMEOUT": 0x2,
-	"HTTP_CHANNEL_RESPONSE_FIELD_CHANNELID":       0x1,
-	"HTTP_TUNNEL_REDIR_ENABLE_ALL":                0x80000000,
-	"HTTP_TUNNEL_REDIR_DISABLE_ALL":               0x40000000,
-	"HTTP_TUNNEL_REDIR_DISABLE_DRIVE":             0x1,
-	"HTTP_TUNNEL_REDIR_DISABLE_PRINTER":           0x2,
-	"HTTP_TUNNEL_REDIR_DISABLE_PORT":              0x4,
-	"HTTP_TUNNEL_REDIR_DISABLE_CLIPBOARD":         0x8,
-	"HTTP_TUNNEL_REDIR_DISABLE_PNP":               0x10,
-	"HTTP_CAPABILITY_IDLE_TIMEOUT":                0x2,
+	"HTTP_CHANNEL_RESPONSE_FIELD_CHANNELID":        0x1,
+	"HTTP_TUNNEL_REDIR_ENABLE_ALL":                 0x80000000,
+	"HTTP_TUNNEL_REDIR_DISABLE_ALL":                0x40000000,
+	"HTTP_TUNNEL_REDIR_DISABLE_DRIVE":              0x1,
+	"HTTP_TUNNEL_REDIR_DISABLE_PRINTER":            0x2,
+	"HTTP_TUNNEL_REDIR_DISABLE_PORT":               0x4,
+	"HTTP_TUNNEL_REDIR_DISABLE_CLIPBOARD":          0x8,
+	"HTTP_TUNNEL_REDIR_DISABLE_PNP":                0x10,
+	"HTTP_CAPABILITY_IDLE_TIMEOUT":                 0x2,
 }
 
 func c16Constants(c *Ctx) {
